@@ -240,6 +240,11 @@ def scenario_for(seed, index, tier):
         # exception handler after the server dropped the first link (no
         # disconnect() in between)
         sc['second_via'] = rng.choice(['user', 'handler'])
+    if not sc.get('second') and rng.random() < 0.1:
+        # the user does not wait for anything: it writes its packets and
+        # calls (a non-immediate) disconnect() straight away - everything it
+        # wrote still has to arrive, whole and in order
+        sc['leave_at_once'] = True
     v = rng.random()
     if v < 0.25:
         sc['net']['one_byte_reads'] = True
@@ -440,7 +445,8 @@ def _execute(scenario, tape, want_world=False):
                             len(c['log']) >= len(c['exp_in']) and
                             app is not None and
                             app.play_frames >= want_frames)
-                    c['settled'] = w.wait_until(settled, 60000000)
+                    if not sc.get('leave_at_once'):
+                        c['settled'] = w.wait_until(settled, 60000000)
                 if via_handler and k == 0 and len(S) > 1 and \
                         not c['errs']:
                     # the server drops the link; the handler reconnects
@@ -527,6 +533,10 @@ def check(scenario, w, st, res, exp_in, exp_out, ids, k=0, top=None):
     ob(len(exp_in) + 1)
     got = [tuple(x) for x in st['log']]
     want = [(a, b, tuple(c)) for a, b, c in exp_in]
+    if scenario.get('leave_at_once') and got == want[:len(got)]:
+        # it left before everything had been sent to it
+        want = got
+        res.probes['left-without-waiting'] = 1
     if got != want:
         i = 0
         while i < min(len(got), len(want)) and got[i] == want[i]:
